@@ -4,9 +4,11 @@ import (
 	"encoding/json"
 	"fmt"
 	"os"
+	"path/filepath"
 	"sort"
 	"strconv"
 	"strings"
+	"syscall"
 	"time"
 
 	"github.com/mithrandie/csvq/lib/option"
@@ -118,16 +120,16 @@ func c01LimitsOf(thorough bool) c01Limits {
 // a created LTSV table that no commit can write
 func c01Alphabet(thorough bool) []string {
 	if thorough {
-		return append(append([]string(nil), c01m.Alphabet...), "S2F", "D2z", "AV", "CLX")
+		return append(append([]string(nil), c01m.Alphabet...), "S2F", "D2z", "AV", "RV", "CLX")
 	}
-	// a DELETE that affects nothing belongs to the quick tier too: a statement that changes no record must leave
+	// a column rename of the temporary table (same width, other header) and a DELETE that affects nothing belong to the quick tier too: a statement that changes no record must leave
 	// an oddly spelled file byte-identical
-	return append(append([]string(nil), c01m.Alphabet...), "D2z")
+	return append(append([]string(nil), c01m.Alphabet...), "D2z", "RV")
 }
 
 func inBase(ops []string) bool {
 	for _, o := range ops {
-		if o == "S2F" || o == "D2z" || o == "AV" || o == "CLX" {
+		if o == "S2F" || o == "D2z" || o == "AV" || o == "RV" || o == "CLX" {
 			return false
 		}
 	}
@@ -326,6 +328,13 @@ func (r *c01Runner) one(k c01Case) {
 	if r.cut {
 		return
 	}
+	// the lock-wait ending costs a real wait per run: it ends flat procedures only (in the thorough tier also blocks),
+	// always as the last statement, after at most 2 (3) statements, without the probe variant
+	for i, o := range k.Ops {
+		if o == "LK" && (i != len(k.Ops)-1 || k.Probe || (k.Wrap != "" && !r.c.Thorough()) || len(k.Ops) > map[bool]int{false: 3, true: 4}[r.c.Thorough()]) {
+			return
+		}
+	}
 	r.idx++
 	if !r.c.Mine(r.idx) {
 		return
@@ -454,6 +463,26 @@ func (j *c01Judge) exit(code int, errText string) {
 
 func c01Nontrivial(out *c01m.Outcome) bool { return out.Changes > 0 }
 
+// c01HoldForeignLock takes the exclusive flock(2) on k.csv on a descriptor of its own, the way another csvq
+// process updating k would hold it, when the procedure contains the terminator LK. The returned function releases it.
+func c01HoldForeignLock(dir string, k c01Case) func() {
+	need := false
+	for _, o := range k.Ops {
+		if o == "LK" {
+			need = true
+		}
+	}
+	if !need {
+		return func() {}
+	}
+	fp, err := os.OpenFile(filepath.Join(dir, "k.csv"), os.O_RDWR, 0)
+	if err != nil {
+		return func() {}
+	}
+	syscall.Flock(int(fp.Fd()), syscall.LOCK_EX)
+	return func() { syscall.Flock(int(fp.Fd()), syscall.LOCK_UN); fp.Close() }
+}
+
 // c01Reset puts the directory into the initial state; a directory the previous case left in exactly that state is kept.
 var c01Clean = map[string]bool{}
 
@@ -535,6 +564,8 @@ func c01Inproc(c *core.Ctx, dir string, k c01Case) {
 	// 40 s cannot: a wait that long is a lock this very process leaked, and the run is then reported.
 	env.Tx.UpdateWaitTimeout(40, 5*time.Millisecond)
 	env.Tx.Flags.ExportOptions.Format = option.CSV
+	release := c01HoldForeignLock(dir, k)
+	defer release()
 	r := c01Exec(env, k.SQL)
 
 	nt := c01Nontrivial(out)
@@ -636,7 +667,9 @@ func c01Cli(c *core.Ctx, dir string, k c01Case) {
 	}
 	c01Reset(dir)
 	c01Clean[dir] = false
+	release := c01HoldForeignLock(dir, k)
 	o := procx.Exec(procx.Run{Dir: dir, Args: args, Timeout: 40 * time.Second})
+	release()
 	nt := c01Nontrivial(out)
 	c.EvalN(1, b2i(nt))
 	c.Add("traces_validated_against_impl", 1)
